@@ -134,7 +134,12 @@ def ste_setup(ex, p):
     return dict(mod=mod, enabled=enabled)
 
 
-STE_UNIT = Unit("C20.set_trickery_enabled", LL + "set_trickery_enabled", ste_setup,
+def ste_before_stmt(ex, n, p):
+    if isinstance(n, ast.Assign) and any(isinstance(t, ast.Name) and t.id == "_can_use_trickery" for t in n.targets):
+        ex.oblig("C20.mode.setting_stored_under_lock", "clause", p, BoolVal("_trickery_lock" in p.ghost.get("locks_held", ())))
+
+
+STE_UNIT = Unit("C20.set_trickery_enabled", LL + "set_trickery_enabled", ste_setup, before_stmt=ste_before_stmt,
                 post=[Clause("C20.mode.set_takes_effect_globally",
                              lambda ctx: And(ctx.H.getf(ctx.args["mod"].t, "_can_use_trickery") == ctx.args["enabled"].t,
                                              BoolVal(ctx.p.ghost.get("locks_held", ()) == ())))],
@@ -436,4 +441,71 @@ TRK_UNIT = Unit("C01.contexts_active_by_trickery", TRK, trk_setup,
                              "dataclasses.replace copies every field it is not given", "dict.items() iterates the (key, value) pairs of the dict",
                              "id() is injective on live objects"])
 
-UNITS = [CAF_UNIT, STE_UNIT, REF_UNIT, TRK_UNIT]
+
+# ------------------------------------------------------------------------------------------------ _check_trickery_available
+# Lock discipline of the auto-detection (C20: "set_trickery_enabled(True/False) takes effect ... on all threads"): the
+# verdict of the one-time self-test may be stored only while holding _trickery_lock and only over a cell that was seen to be
+# None under that same lock acquisition - otherwise it could overwrite a setting made by another thread in the meantime.
+CTA = LL + "_check_trickery_available"
+
+
+def cta_setup(ex, p):
+    mod = sym_ref(p, "module", "module")
+    v0 = p.getf(mod.t, "_can_use_trickery")
+    p.pc.append(Or(Val.is_none(v0), Val.is_boolv(v0)))
+    lock = SV(z3.Const("_trickery_lock", Val), ty="lock", name="_trickery_lock")
+    def opaque(name, ty=None):
+        return lambda ex_, p_, a, k, n: [("ok", p_, SV(fresh(name), **({"ty": ty} if ty else {})))]
+    def deco_contextmanager(ex_, p_, fv, node):
+        return [("ok", p_, SV(fresh("cm_factory"), model=opaque("cm_object")))]
+    def gen_send(ex_, p_, args, kw, node):
+        return oracle("gen.send", may_raise=True)(ex_, p_, args, kw, node)
+    ex.unit.bindings.update({"$module": mod, "_trickery_lock": lock, "warnings.warn": m_warn,
+                             "traceback.print_exc": opaque("print_exc"), "_contexts_active_by_trickery": m_by_trickery,
+                             "InspectionWarning": cls("InspectionWarning")})
+    ex.unit.decorators[CTA + ".noop"] = deco_contextmanager
+    ex.unit.methods[("generator", "send")] = gen_send
+    ex.unit.methods[("str", "format")] = lambda ex_, p_, a, k, n: [("ok", p_, ex_.new_str(p_))]
+    p.ghost["$globals"] = ("_can_use_trickery",)
+    return dict(mod=mod)
+
+
+def cta_global_read(ex, p, name):
+    if "_trickery_lock" not in p.ghost.get("locks_held", ()):
+        v = fresh("racy_" + name)          # not holding the lock: another thread may have stored anything since the last look
+        p.pc.append(Or(Val.is_none(v), Val.is_boolv(v)))
+        p.setf(ex.unit.bindings["$module"].t, name, v)
+        p.ghost["cs_own_write"] = False
+
+
+def cta_before_stmt(ex, n, p):
+    if isinstance(n, ast.Assign) and len(n.targets) == 1 and isinstance(n.targets[0], ast.Name) and n.targets[0].id == "_can_use_trickery":
+        held = "_trickery_lock" in p.ghost.get("locks_held", ())
+        cur = p.getf(ex.unit.bindings["$module"].t, "_can_use_trickery")
+        own = bool(p.ghost.get("cs_own_write")) and held
+        ex.oblig("C20.mode.verdict_stored_only_under_lock_over_unset_cell", "clause", p,
+                 And(BoolVal(held), Or(Val.is_none(cur), BoolVal(own))))
+        p.ghost["cs_own_write"] = held
+    if isinstance(n, ast.With):
+        # about to take the lock: whatever was seen before is stale by the time the lock is held
+        cta_global_read(ex, p, "_can_use_trickery")
+        p.ghost["cs_own_write"] = False
+
+
+def cta_post(ctx):
+    # no lock is left held, and the answer is a bool
+    return And(BoolVal(ctx.p.ghost.get("locks_held", ()) == ()), Or(Val.is_boolv(ctx.result.t), Val.is_none(ctx.result.t)))
+
+
+CTA_UNIT = Unit("C20.check_trickery_available", CTA, cta_setup,
+                post=[Clause("C20.mode.autodetect_releases_lock", cta_post)],
+                bindings=dict(STD_BINDINGS), methods=dict(STD_METHODS), before_stmt=cta_before_stmt,
+                options=dict(global_read=cta_global_read, opaque_generators=True, iter_any_seq=True),
+                allowed_raise=lambda ctx: BoolVal(False),
+                assumptions=["_can_use_trickery is a module global: one cell shared by all threads, read as VOLATILE whenever "
+                             "_trickery_lock is not held (any None/bool value may appear); threading.Lock is a mutex and every other "
+                             "writer (set_trickery_enabled, own unit) holds it",
+                             "the self-test itself (generator, contextmanager, warnings) is opaque here: only the lock discipline of the "
+                             "verdict is decided"])
+
+UNITS = [CAF_UNIT, STE_UNIT, REF_UNIT, TRK_UNIT, CTA_UNIT]
